@@ -530,4 +530,31 @@ theorem renderEntries_spells (fmt : R → List UInt8) (pr : List UInt8 → Optio
 
 end
 
+
+theorem spellsStream_mk (pr : List UInt8 → Option R) (info : Dict R) (data g1 ents g2 eol g3 : List UInt8)
+    (h1 : Gap g1) (h2 : SpellsEntries pr info ents) (h3 : Gap g2) (h4 : eol = [10] ∨ eol = [13, 10]) (h5 : Gap g3) :
+    PdfSyntax.SpellsStream pr info data ([60, 60] ++ g1 ++ ents ++ g2 ++ kwStream ++ eol ++ data ++ g3 ++ kwEndstream) :=
+  ⟨g1, ents, g2, eol, g3, by simp [PdfSyntax.kwStream, PdfSyntax.kwEndstream, kwStream, kwEndstream], h1, h2, h3, h4, h5⟩
+
+theorem render_stream_spells (fmt : R → List UInt8) (pr : List UInt8 → Option R) (info : Dict R) (data : List UInt8)
+    (h : RenderableE fmt pr info) (t : Tape) :
+    PdfSyntax.SpellsStream pr info data (render fmt (.stream info (.pending data)) t).1 := by
+  simp only [render]
+  apply spellsStream_mk pr info data _ _ _ _ _ (gap_spec _ _).1 (renderEntries_spells fmt pr info h _) (gap_spec _ _).1 ?_
+    (gap_spec false t).1
+  split
+  · exact Or.inl rfl
+  · exact Or.inr rfl
+
+/-- value, a gap where one is needed, tail -/
+theorem renderWithTail_spec (fmt : R → List UInt8) (pr : List UInt8 → Option R) (v : Prim R) (tail : List UInt8)
+    (h : Renderable fmt pr v) (t : Tape) :
+    ∃ txt g, (renderWithTail fmt v tail t).1 = txt ++ g ++ tail ∧ Spells pr v txt ∧ Gap g ∧
+      (PdfSyntax.needsBnd v = true → Bnd (g ++ tail)) := by
+  refine ⟨_, _, rfl, render_spells fmt pr v h _, (gap_spec _ _).1, ?_⟩
+  intro hb
+  apply gap_bnd_must
+  intro hm
+  simpa [needsBnd, hb] using hm
+
 end PdfSpec
